@@ -414,7 +414,7 @@ class C10(fw.Property):
                   "to the code by running both on the same event scripts (every datagram, handler start/cancel, delivery, failure, loop exception, the clock).")
     level_note = ("Side conditions, explicit in the theorems: O3 (the peer does not reuse the (peer, token) pair in another request while the first is pending; refuted "
                   "without it), no other message from that peer with the same message ID in the history (duplicates are C04's replay), the application sends no "
-                  "ACK-typed requests, no opportunity is recorded under the (peer, mid) at arrival. Shutdown and transport errors are outside the model (no such "
+                  "ACK-typed requests (that no opportunity is recorded under the (peer, mid) of a non-duplicate is proved for every reachable state, C10_fresh_no_opportunity). Shutdown and transport errors are outside the model (no such "
                   "events; C18) and therefore outside the theorems. Time: Fire runs the pending handle with the least (due, creation number) and sets the clock to "
                   "max(now, due); Wait never passes a due handle. Three defects found by this check are fixed in /repo (3a77ec2, 95af16f, a3add01); the oracle keeps "
                   "their signatures. Trusted: Coq kernel + vm_compute; the hand-written model (validated by correspondence only); the virtual-time loop as ideal "
